@@ -220,6 +220,11 @@ def gen_bat(rng):
             b["status"] = "Discharging" if discharging else rng.choice(["Charging", "Full", "Not charging", "Unknown"])
             if case["ac"] is None and rng.random() < 0.15:
                 b["status"] = rng.choice(["Not charging", "Unknown"])
+            elif case["ac"] is not None and rng.random() < 0.2:
+                # the two sources out of step: the cable was pulled a moment ago and the battery still says "Full", or a weak
+                # charger is plugged in while the battery drains - the adapter is what "on mains" means
+                b["status"] = rng.choice(["Discharging", "Charging", "Full"])
+                b["status_out_of_step"] = True
         rr = rng.random()
         b["rate_file"], b["rate"], b["tte"] = None, None, None
         if fam != "capacity":
